@@ -63,9 +63,10 @@ def scenarios(draw):
     for i in range(src.int(0, 3)):
         sc["reads"].append(S.unmapped_read("u%d" % i))
     grouping = src.choice(["none", "tag", "tag", "file"])
+    names = src.choice([["gA", "gB"], ["gA", "gB"], [" T cell", "B cell ", "gC"]])   # blanks are part of a group name
     for r in sc["reads"]:
         if src.bool(0.8):
-            r["tags"] = {"RG": src.choice(["gA", "gB"])}
+            r["tags"] = {"RG": src.choice(names)}
     sc["grouping"] = grouping
     sc["opts"] = ["--data_type", src.choice(["nanopore", "pacbio_ccs"]), "--threads", "1"]
     if src.bool(0.5):
